@@ -231,6 +231,19 @@ Theorem C19_compress_to_real_particles_is_visible : exists a n nvar,
 Proof. exact wrong_compress_visible. Qed.
 Print Assumptions C19_compress_to_real_particles_is_visible.
 
+(* the listening socket is closed at most once per open on every path (regenerated open / close table of struct reb_server_data.socket):
+   one open site, and every close site invalidates the stored descriptor number afterwards; a close that leaves the number in place is rejected *)
+Theorem C19_listening_socket_closed_at_most_once :
+  listening_socket_open_sites = ["reb_server_start"] /\
+  listening_socket_close_sites = [("reb_simulation_stop_server", true)] /\
+  closes_at_most_once listening_socket_open_sites listening_socket_close_sites = true /\
+  closes_at_most_once ["reb_server_start"] [("reb_server_start", false); ("reb_simulation_stop_server", true)] = false.
+Proof.
+  exact (conj (proj1 gen_listening_socket_closed_once) (conj (proj1 (proj2 gen_listening_socket_closed_once))
+        (conj (proj2 (proj2 gen_listening_socket_closed_once)) extra_close_rejected))).
+Qed.
+Print Assumptions C19_listening_socket_closed_at_most_once.
+
 (* the request loop closes every connection descriptor exactly once (no fclose(fdopen(fd)) followed by close(fd)) *)
 Theorem C19_server_closes_each_descriptor_once : server_double_close_sites = 0.
 Proof. exact gen_server_single_close. Qed.
@@ -272,6 +285,24 @@ Theorem C19_no_shared_state_avx512_refuted :
                        so_writers o2 = ["recalculate_constants"].
 Proof. exact gen_no_shared_state_avx512_refuted. Qed.
 Print Assumptions C19_no_shared_state_avx512_refuted.
+
+(* ---- degenerate corners, stated explicitly (no theorem above excludes them by hypothesis: sizes are nat, lists may be empty).
+   N = 0: any allocation compresses to 0 and a step never re-allocates; nothing allocated stays nothing and the first step with particles
+   allocates; a server without handlers and an integrator with empty blocks obey the discipline; the initial state is quiet; the empty
+   schedule changes nothing (run_sched [] = identity, by computation in C19_disjoint_commute with sch = []).
+   What the CODE does in corners the model does not describe is exercised by the searcher: empty simulation (integrate reports
+   NoParticles), star only, one planet, zero masses, coincident particles, NaN / inf / 1e150 / subnormal / -0.0 coordinates, t != 0,
+   backward integration, tmax = t, e = 0, e -> 1, inc = 0 / pi, zero radii with collisions, equal hashes, the same object after an
+   Escape error; request-shape edges (zero-length / unannounced / negative-length uploads, unknown paths and methods, over-long lines,
+   empty requests, clients that disconnect before the end of their headers). *)
+Theorem C19_degenerate_corners :
+  ((forall a, ias15_compress a 0 = 0) /\ (forall n, ias15_compress 0 n = 0) /\
+   (forall a, ias15_step_reallocates a 0 = false) /\ (forall n, ias15_step_reallocates 0 (S n) = true)) /\
+  (wf false (system [] [[]] [] [] []) = true /\ wf true (system [] [[]] [] [] []) = true /\
+   serializing init = false /\ in_step init = false /\
+   (forall s, reach (system [] [[]] [] [] []) s -> serializing s = true -> in_step s = false)).
+Proof. exact (conj ias15_corners protocol_corners). Qed.
+Print Assumptions C19_degenerate_corners.
 
 (* ---- independent simulations: if a step of simulation i maps (its own component, globals) to a new component and
    never writes the globals, then ANY interleaving of the steps of any number of simulations gives, for every
